@@ -99,7 +99,7 @@ fn variants(stmt: &str) -> Vec<(String, String)> {
     for i in 0..toks.len().saturating_sub(1) {
         let left = join(&toks[..=i]);
         let right = join(&toks[i + 1..]);
-        for (name, sep) in [("two-blanks", "  "), ("tab", "\t"), ("lf", "\n"), ("crlf", "\r\n"), ("blank-lf-blank", " \n ")] {
+        for (name, sep) in [("two-blanks", "  "), ("tab", "\t"), ("lf", "\n"), ("crlf", "\r\n"), ("blank-lf-blank", " \n "), ("vertical-tab", "\u{b}"), ("form-feed", "\u{c}"), ("no-break-space", "\u{a0}"), ("line-separator", "\u{2028}"), ("ideographic-space", "\u{3000}")] {
             out.push((format!("separator-{}", name), format!("{}{}{}", left, sep, right)));
         }
         if is_punct(&toks[i]) || is_punct(&toks[i + 1]) {
